@@ -1,7 +1,7 @@
 use std::time::{SystemTime, UNIX_EPOCH};
 
 use combine::error::StreamError;
-use combine::{Parser, attempt, choice, easy, many, many1};
+use combine::{Parser, attempt, choice, easy, many, many1, not_followed_by};
 use indexmap::indexmap;
 use redis_protocol::resp3::types::BytesFrame;
 use sierradb::StreamId;
@@ -69,7 +69,19 @@ pub struct Event {
 impl Event {
     fn parser<'a>() -> impl Parser<FrameStream<'a>, Output = Event> + 'a {
         (
-            stream_id(),
+            // An option keyword whose value did not parse must not start a new event: the option
+            // keywords of this command are never stream ids.
+            not_followed_by(
+                choice((
+                    keyword("EVENT_ID"),
+                    keyword("EXPECTED_VERSION"),
+                    keyword("TIMESTAMP"),
+                    keyword("PAYLOAD"),
+                    keyword("METADATA"),
+                ))
+                .map(|_| "keyword"),
+            )
+            .with(stream_id()),
             string().expected("event name"),
             many::<Vec<_>, _, _>(OptionalArg::parser()),
         )
